@@ -27,30 +27,49 @@ def nsets(s):
 
 def key_closure(fl, mon, thorough, **kw):
     sets = KEY_SETS_THOROUGH if thorough else KEY_SETS_QUICK
-    return dict(flavour=fl, suite="key-closure", args=dict(mon=mon, sets=sets, max_states=3000000 if thorough else 400000), shards=nsets(sets), timeout=3000 if thorough else 600, **kw)
+    return dict(flavour=fl, suite="key-closure", args=dict(mon=mon, sets=sets, max_states=3000000 if thorough else 400000), shards=nsets(sets), timeout=3000 if thorough else 240, **kw)
 
 
 def ord_closure(fl, mon, thorough, sets_q=ORD_SETS_QUICK, sets_t=ORD_SETS_THOROUGH, **extra):
     sets = sets_t if thorough else sets_q
     a = dict(mon=mon, sets=sets, max_states=3000000 if thorough else 300000)
     a.update(extra)
-    return dict(flavour=fl, suite="ord-closure", args=a, shards=nsets(sets), timeout=3000 if thorough else 600)
+    return dict(flavour=fl, suite="ord-closure", args=a, shards=nsets(sets), timeout=3000 if thorough else 240)
+
+
+def _noexport(a):
+    """histories end with an export only for the checks that judge exports (or the process outcome)"""
+    m = a.get("mon", "all")
+    if not any(x in m for x in ("export", "capacity", "none", "all")):
+        a["noexport"] = 1
+    return a
 
 
 def key_random(fl, mon, coll, budget, thorough, shards=16, **extra):
     a = dict(mon=mon, coll=coll)
     a.update(extra)
-    return dict(flavour=fl, suite="key-random", args=a, shards=shards, budget=budget * (8 if thorough else 1), timeout=3000 if thorough else 600)
+    _noexport(a)
+    j = dict(flavour=fl, suite="key-random", args=a, shards=shards, budget=budget * (8 if thorough else 1), timeout=3000 if thorough else 240)
+    if "seed_offset" in a:
+        j["seed_offset"] = a.pop("seed_offset")
+    if "mem_limit" in a:
+        j["mem_limit"] = a.pop("mem_limit")
+    return j
 
 
 def ord_random(fl, mon, coll, budget, thorough, shards=16, **extra):
     a = dict(mon=mon, coll=coll)
     a.update(extra)
-    return dict(flavour=fl, suite="ord-random", args=a, shards=shards, budget=budget * (8 if thorough else 1), timeout=3000 if thorough else 600)
+    j = dict(flavour=fl, suite="ord-random", args=a, shards=shards, budget=budget * (8 if thorough else 1), timeout=3000 if thorough else 240)
+    if "seed_offset" in a:
+        j["seed_offset"] = a.pop("seed_offset")
+    return j
 
 
 def miri(suite, budget, shards, thorough, **args):
-    return dict(flavour="miri", suite=suite, args=args, shards=shards * (2 if thorough else 1), budget=budget * (6 if thorough else 1), timeout=3400 if thorough else 900, counts_for_exhaustive=False)
+    if suite == "key-random":
+        _noexport(args)
+    return dict(flavour="miri", suite=suite, args=args, shards=shards * (2 if thorough else 1), budget=budget * (6 if thorough else 1), timeout=3400 if thorough else 400, counts_for_exhaustive=False)
 
 
 LEVEL_TEXT = "exploration"
@@ -62,7 +81,7 @@ def plan(prop, tier, seed):
     if p is None:
         return None
     p.setdefault("level", "exploration")
-    p.setdefault("timeout", 3000 if T else 600)
+    p.setdefault("timeout", 3000 if T else 240)
     return p
 
 
@@ -122,7 +141,7 @@ def _plan(prop, T):
                 ord_random("dbg", "structure,removal_stats", "maptree+settree+maptree-int+settree-int", 3200, T),
                 key_random("dbg", "structure", "tree", 3200, T),
                 ord_random("rel", "structure,removal_stats", "maptree+settree", 3200, T),
-                dict(flavour="rel", suite="big", args=dict(max_n=4000000 if T else 200000), shards=16, timeout=3400 if T else 600),
+                dict(flavour="rel", suite="big", args=dict(max_n=4000000 if T else 200000), shards=16, timeout=3400 if T else 300),
             ],
             rule="evaluation = one hooked arena snapshot validated after a completed public call (links, strict key order, no red-red edge, equal black count, sentinel unlinked, height <= 2*log2(n+1)+1); distinct non-trivial = closed canonical shapes with >= 2 entries + distinct pre-removal configurations (children, colours of node/sibling/nephews/parent, side) + distinct (n, height) pairs of large trees",
             require={
@@ -236,7 +255,7 @@ def _plan(prop, T):
                 ord_random("rel", "slots", "maptree+settree+maptree-int", 6400, T, profile="large-bounded-population,medium,clear-and-reuse", seed_offset=5),
                 key_random("dbg", "slots", "tree", 3200, T),
                 key_random("rel", "slots", "tree", 4800, T, profile="large,medium,insert-heavy-long-lived,clear-heavy", seed_offset=6),
-                dict(flavour="rel", suite="big", args=dict(max_n=1000000 if T else 100000), shards=16, timeout=3400 if T else 600),
+                dict(flavour="rel", suite="big", args=dict(max_n=1000000 if T else 100000), shards=16, timeout=3400 if T else 300),
             ],
             rule="evaluation = one hooked snapshot in which {sentinel} + reachable slots + free list must partition 0..buffer.len() (and everything is free after clear), with buffer.len() <= 4*(peak+1)+max(hint,8); distinct non-trivial = closed canonical shapes + distinct (reference contents, operation) of the random histories",
             require={"snapshots_checked": 200000, "op_clear": 1000, "max_buffer_len_seen": 2000, "states": 3000},
@@ -344,9 +363,9 @@ def _plan(prop, T):
     if prop == "C19":
         return dict(
             jobs=[
-                dict(flavour="rel", suite="export-size", args=dict(max_n=4000000 if T else 300000), shards=16, mem_limit=(24 if T else 8) * GB, timeout=3400 if T else 600),
+                dict(flavour="rel", suite="export-size", args=dict(max_n=4000000 if T else 300000), shards=16, mem_limit=(24 if T else 8) * GB, timeout=3400 if T else 300),
                 key_closure("dbg", "capacity", T),
-                key_random("rel", "capacity", "both", 4800, T),
+                key_random("rel", "capacity", "both", 4800, T, mem_limit=8 * GB),
             ],
             rule="evaluation = one into_ordered_vec whose returned capacity must be <= 4n+64 (n = entries physically stored) and whose largest single allocation request (counting allocator) must be <= (4n+64)*16 bytes, under an address-space limit; distinct non-trivial = distinct (n, capacity, insertion order, expired share)",
             require={"max_entries_exported": 250000, "op_export": 3000},
